@@ -10,8 +10,12 @@ ENGINES = [
      "kind_free_text": "explicit-state BFS whose transitions are real setter calls on real objects; exact-state dedup; depth bound or fixpoint"},
 ]
 _PENDING = "check not built yet in this round (machinery under construction; see DESIGN.md section 3)"
-NOT_APPLICABLE = {p: _PENDING for p in ["C02", "C06", "C10", "C11", "C14", "C15", "C16", "C17", "C18"]}
+NOT_APPLICABLE = {p: _PENDING for p in ["C02", "C06", "C10", "C14", "C15", "C16", "C17", "C18"]}
 META = {
+    "C11": {"engine": "encode-enum + refurl", "design_ref": "3/C11",
+            "technique": "exhaustive enumeration of the finite domains (7 sets x 256 bytes, all byte pairs, all byte strings up to length 3 for the round trip) on the real code, compared with the Standard's set definitions",
+            "text": "Set membership is decided for all 7x256 entries; the encoder is run on every byte at every offset around the 8-byte unrolled loop and on all byte pairs; every byte is pushed through every URL component via setters and parsing on both URL types and compared with the model; decode(encode(x)) = x is checked for every byte string up to the stated length and malformed escapes are enumerated.",
+            "note": "Trusted: the set definitions transcribed from the Standard (refurl, reflist), validated on WPT percent-encoding and URL vectors."},
     "C13": {"engine": "sched-explore (scheduler + TSan) + free-running TSan", "design_ref": "3/C13",
             "technique": "stateless exhaustive exploration of thread interleavings of the real code under a controlled scheduler (points at every atomic operation), preemption-bounded / complete with state-hash pruning, ThreadSanitizer as race oracle in every schedule",
             "text": "Every interleaving (up to the preemption bound; all of them in the thorough tier) of 2-3 real threads through the lazy table initialisation and through set_max_input_length vs parse/can_parse/setters is executed in a fresh process; results must equal the sequential results and ThreadSanitizer must stay silent; deadlock, livelock, crash and hang are violations.",
